@@ -630,6 +630,8 @@ type FnCtx struct {
 	headers        map[*ssa.BasicBlock]int // header -> loop ordinal (1-based, block order)
 	loopsOf        map[*ssa.BasicBlock][]string
 	loopPre        map[*ssa.BasicBlock]*State // state in which each loop was entered
+	afterCall      map[string]*State          // state in which the first call of a callee (by short name) returned
+	afterCallBlock map[string]*ssa.BasicBlock
 	iterPre        map[*ssa.BasicBlock]*State // state at the start of the iteration (after the loop-head havoc)
 	hdrVars        map[*ssa.BasicBlock]map[string]Val
 	noPanic        bool
